@@ -1,6 +1,10 @@
 package desync
 
-import "fmt"
+import (
+	"fmt"
+
+	"golang.org/x/sync/errgroup"
+)
 
 // ChunkMissing is returned by a store that can't find a requested chunk
 type ChunkMissing struct {
@@ -44,3 +48,17 @@ func (e InvalidFormat) Error() string {
 type Interrupted struct{}
 
 func (e Interrupted) Error() string { return "interrupted" }
+
+// waitOrInterrupted waits for the workers of a group and returns their error. If
+// there is none but the feeder stopped handing out work early because the
+// context was cancelled, not all the work has been done and Interrupted is
+// returned instead of nil.
+func waitOrInterrupted(g *errgroup.Group, interrupted bool) error {
+	if err := g.Wait(); err != nil {
+		return err
+	}
+	if interrupted {
+		return Interrupted{}
+	}
+	return nil
+}
